@@ -974,6 +974,11 @@ def search(ctx, np, post):
                 kw["force_as"] = "npz"
         elif load_forced:
             kw["force_as"] = "npy"
+        if kind == "npy" and r.random() < 0.35:
+            # documented: further keyword arguments go on to the reader (np.load); a memory-mapped read is still a read -
+            # the object holds the statistics that were in the file when it was constructed
+            kw["mmap_mode"] = r.choice(["r", "c"])
+            ctx.count("search:reload-mmap")
         lk = {k: str(v) for k, v in kw.items()}
         reloaded = {}
         for nv in (True, False):
@@ -1003,6 +1008,18 @@ def search(ctx, np, post):
             return
         if same_transform(originals[True], reloaded[True], F, True, "continued_accumulation_differs", dict(detail, load_kwargs=lk)):
             same_transform(originals[True], third, F, True, "second_generation_differs", dict(detail, load_kwargs=lk, second=p2))
+        # -- a later save to the same path (by the object that accumulated more) does not reach into objects loaded earlier
+        try:
+            with warnings.catch_warnings():
+                warnings.simplefilter("ignore")
+                if kind == "npz":
+                    originals[True].save(p, key=detail.get("entry"), compress=compress, overwrite=True)
+                else:
+                    originals[True].save(p)
+        except Exception as e:
+            fail("save_again_raises", dict(detail, load_kwargs=lk, exception=type(e).__name__, message=str(e)[:200]))
+            return
+        same_transform(originals[False], reloaded[False], F, False, "object_loaded_earlier_changed_by_a_later_save_to_its_file", dict(detail, load_kwargs=lk))
         ctx.case(dict(oracle=detail), nontrivial=True)
 
     names = {"npy": ["o.npy", "x.y.npy", "o.npz.npy"], "npz": ["o.npz", "o.npy.npz"],
